@@ -7,6 +7,7 @@ statement (spec functions below), not from the code.
 from __future__ import annotations
 
 import z3
+from fractions import Fraction
 
 from pyvc.models.ase_model import AtomsScalar, CellModel, RngModel
 from pyvc.models.numpy_model import PI
@@ -168,11 +169,21 @@ def build(S, tier):
         common_checks(S, fq, p, v["rng"], v["atoms"])
 
     # ------------------------------------------------------------------ isotension
-    def run_isotension(I, hydrostatic=False, twice=False):
+    def run_isotension(I, hydrostatic=False, twice=False, int_stress=False):
         T, E, E0, P = (I.path.fresh(n) for n in ("T", "E", "E0", "P"))
         n = I.path.fresh("n", "int")
         h1, h0 = sym_matrix(I, "h"), sym_matrix(I, "g")
-        if hydrostatic:
+        if int_stress:
+            # a stress tensor given as INTEGERS (np.diag([1, 0, -1]), np.zeros((3, 3), int), a nested list of ints) and a fractional
+            # pressure: arithmetic on it must not happen in the integer array
+            P = Fraction(1, 2)
+            Sx = Tensor((3, 3), [1, 0, 0, 0, 0, 0, 0, 0, -1], "int")
+            # (an orthorhombic cell stretched along its axes keeps this instance within easy reach of the solver)
+            d = [I.path.fresh(f"stretch{i}") for i in range(3)]
+            I.path.assume(z3.And([x.t > 0 for x in d]))
+            h0 = Tensor((3, 3), [1 if i == j else 0 for i in range(3) for j in range(3)])
+            h1 = Tensor((3, 3), [d[i] if i == j else 0 for i in range(3) for j in range(3)])
+        elif hydrostatic:
             Sx = Tensor((3, 3), [P if i == j else 0 for i in range(3) for j in range(3)])
         else:
             Sx = sym_matrix(I, "S")
@@ -192,17 +203,17 @@ def build(S, tier):
             atoms.evals = 0
         before, cbefore = dict(crit.attrs), snap_attrs(ctx)
         r = I.call(I.getattr(crit, "evaluate"), [ctx], {})
-        return dict(r=r, T=T, E=E, E0=E0, P=P, V1=V1, V0=V0, n=n, rng=rng, atoms=atoms, S=S_spec, crit=crit, h1=h1, h0=h0,
+        return dict(r=r, T=T, E=E, E0=E0, P=P if isinstance(P, Sym) else Sym(z3.RealVal(str(P))), V1=V1, V0=V0, n=n, rng=rng, atoms=atoms, S=S_spec, crit=crit, h1=h1, h0=h0,
                     before=before, ctx=ctx, cbefore=cbefore)
 
     fq = CRIT + "IsotensionCriteria.evaluate"
-    for twice in (False, True):
-      tag2 = ", second trial with the same context" if twice else ""
-      paths = S.explore(lambda I, tw=twice: run_isotension(I, twice=tw), fq + tag2)
+    for twice in (False, True, "int"):
+      tag2 = ", second trial with the same context" if twice is True else (", integer-typed stress tensor" if twice == "int" else "")
+      paths = S.explore(lambda I, tw=twice: run_isotension(I, twice=tw is True, int_stress=tw == "int"), fq + tag2)
       if not twice:
           S.register_function(S.new_interp(), fq, len(paths))
       for i, p in enumerate(paths):
-        S.adopt(p, prefix="[second trial]" if twice else "")
+        S.adopt(p, prefix="[second trial]" if twice is True else ("[integer stress]" if twice else ""))
         if p.status == "unsupported":
             continue
         if p.status != "return":
